@@ -127,8 +127,14 @@ class Ctx(object):
                                                                   traceback.format_exc().strip().splitlines()[-2].strip()))
         return None
 
+    def unlisted_reports(self):
+        """Reports that are not listed known findings (those are printed and do not decide anything)."""
+        known = {(e['property'], e['rule'], e['construct']) for e in load_known()
+                 if e.get('property') == self.prop and e.get('status') == 'finding'}
+        return [r for r in self.reports if r.key not in known]
+
     def check_unrecognised(self):
-        if self.reports:
+        if self.unlisted_reports():
             return      # a violation is a verdict; undecided parts are listed in the evidence
         if self.errors:
             raise AnalysisError(' | '.join(self.errors[:3]))
@@ -136,10 +142,10 @@ class Ctx(object):
             raise AnalysisError('unrecognised idiom(s): ' + ' | '.join(self.unrecognised[:3]))
 
     def check_floors(self):
-        if self.reports:
+        if self.unlisted_reports():
             return      # a violation is a verdict (the reporting rule may have cut other rules short)
         for name, r in sorted(self.rules.items()):
-            if r['floor'] is not None and r['instances'] < r['floor'] and not r['reports']:
+            if r['floor'] is not None and r['instances'] < r['floor']:
                 raise AnalysisError('rule %s matched %d instances, fewer than the %d confirmed by hand '
                                     '(anchor vanished or idiom no longer recognised)'
                                     % (name, r['instances'], r['floor']))
